@@ -350,3 +350,157 @@ func ResolveSpill(v ssa.Value) ssa.Value {
 	}
 	return v
 }
+
+// ---------- path-sensitive variant of the cut engine ----------
+//
+// go/ssa lowers `v := a || b` / `if c { v = x } else { v = y }` into phis; whether the branch on
+// such a phi establishes a fact depends on the edge the phi was entered through. CutReachPS
+// searches over (last K blocks) states, resolves phi conditions along the actual path suffix,
+// prunes edges that contradict a phi-resolved constant, and hands the resolved facts to Cut.
+
+const psK = 5
+
+type psState [psK]int
+
+// FactsOnPath resolves cond == truth along the path suffix (last element = the block whose
+// terminator tests cond). feasible=false when the path forces cond to the other value.
+func FactsOnPath(cond ssa.Value, truth bool, path []*ssa.BasicBlock) (facts []Fact, feasible bool) {
+	return factsOnPath(cond, truth, path, 0)
+}
+
+func factsOnPath(cond ssa.Value, truth bool, path []*ssa.BasicBlock, depth int) ([]Fact, bool) {
+	if depth > 8 {
+		return nil, true
+	}
+	switch c := cond.(type) {
+	case *ssa.UnOp:
+		if c.Op == token.NOT {
+			return factsOnPath(c.X, !truth, path, depth+1)
+		}
+	case *ssa.Phi:
+		// locate the phi's block on the path
+		for i := len(path) - 1; i >= 1; i-- {
+			if path[i] != c.Block() {
+				continue
+			}
+			pred := path[i-1]
+			for ei, p := range c.Block().Preds {
+				if p != pred {
+					continue
+				}
+				e := c.Edges[ei]
+				if b, ok := ConstBool(e); ok {
+					if b != truth {
+						return nil, false
+					}
+					// which edge brought us here is itself informative
+					return append(edgeFacts(pred, c.Block(), depth+1), Fact{V: cond, Truth: truth}), true
+				}
+				fs, ok := factsOnPath(e, truth, path[:i], depth+1)
+				if !ok {
+					return nil, false
+				}
+				// the conjuncts/disjuncts evaluated before e on the way to pred hold as well
+				fs = append(fs, upFacts(pred, c.Block(), depth+1)...)
+				return append(fs, Fact{V: cond, Truth: truth}), true
+			}
+		}
+		return Facts(cond, truth), true
+	}
+	return Facts(cond, truth), true
+}
+
+// CutSpecPS is CutSpec with a facts-based cut predicate evaluated path-sensitively.
+type CutSpecPS struct {
+	Fn     *ssa.Function
+	From   *ssa.BasicBlock
+	Cut    func(fs []Fact) bool
+	Target func(prev, b *ssa.BasicBlock) bool
+}
+
+func CutReachPS(s CutSpecPS) []*ssa.BasicBlock {
+	if len(s.Fn.Blocks) == 0 {
+		return nil
+	}
+	start := s.From
+	if start == nil {
+		start = s.Fn.Blocks[0]
+	}
+	type node struct {
+		b    *ssa.BasicBlock
+		prev *node
+	}
+	suffix := func(n *node) []*ssa.BasicBlock {
+		var out []*ssa.BasicBlock
+		for x := n; x != nil && len(out) < psK; x = x.prev {
+			out = append([]*ssa.BasicBlock{x.b}, out...)
+		}
+		return out
+	}
+	key := func(sfx []*ssa.BasicBlock, next *ssa.BasicBlock) psState {
+		var k psState
+		for i := range k {
+			k[i] = -1
+		}
+		all := append(append([]*ssa.BasicBlock{}, sfx...), next)
+		if len(all) > psK {
+			all = all[len(all)-psK:]
+		}
+		for i, b := range all {
+			k[i] = b.Index
+		}
+		return k
+	}
+	seen := map[psState]bool{}
+	root := &node{b: start}
+	if s.Target(nil, start) {
+		return []*ssa.BasicBlock{start}
+	}
+	queue := []*node{root}
+	for len(queue) > 0 {
+		n := queue[0]
+		queue = queue[1:]
+		sfx := suffix(n)
+		var ifi *ssa.If
+		if len(n.b.Instrs) > 0 {
+			ifi, _ = n.b.Instrs[len(n.b.Instrs)-1].(*ssa.If)
+		}
+		for i, succ := range n.b.Succs {
+			if ifi != nil && len(n.b.Succs) == 2 && n.b.Succs[0] != n.b.Succs[1] {
+				fs, feasible := FactsOnPath(ifi.Cond, i == 0, sfx)
+				if !feasible {
+					continue
+				}
+				if s.Cut != nil && s.Cut(fs) {
+					continue
+				}
+			}
+			k := key(sfx, succ)
+			if seen[k] {
+				continue
+			}
+			seen[k] = true
+			nn := &node{b: succ, prev: n}
+			if s.Target(n.b, succ) {
+				var path []*ssa.BasicBlock
+				for x := nn; x != nil; x = x.prev {
+					path = append([]*ssa.BasicBlock{x.b}, path...)
+				}
+				return path
+			}
+			queue = append(queue, nn)
+		}
+	}
+	return nil
+}
+
+// InstrGuardedPS: every path to the block of `in` passes an edge whose path-resolved facts satisfy cut.
+func InstrGuardedPS(in ssa.Instruction, cut func(fs []Fact) bool, from *ssa.BasicBlock) []*ssa.BasicBlock {
+	tb := in.Block()
+	return CutReachPS(CutSpecPS{Fn: in.Parent(), From: from, Cut: cut, Target: func(prev, b *ssa.BasicBlock) bool { return b == tb }})
+}
+
+// AllSuccessPassPS: every success exit passes an edge whose path-resolved facts satisfy cut.
+func AllSuccessPassPS(fn *ssa.Function, cut func(fs []Fact) bool, errOK func(ssa.Value) bool) []*ssa.BasicBlock {
+	return CutReachPS(CutSpecPS{Fn: fn, Cut: cut, Target: SuccessTarget(fn, errOK)})
+}
